@@ -38,7 +38,28 @@ type Vector struct {
 }
 
 func child() {
-	st, err := stack.Start(stack.Options{HandshakeTimeout: 2 * time.Second, IdleTimeout: 5 * time.Second, ReadTimeout: readTimeout})
+	st, err := stack.Start(stack.Options{HandshakeTimeout: 2 * time.Second, IdleTimeout: 5 * time.Second, ReadTimeout: readTimeout,
+		Respond: func(w http.ResponseWriter, r *http.Request, _ *stack.BackendReq) {
+			// /big/<n>: n octets, each a function of its offset, written in pieces larger than the HTTP/2 server's write buffer
+			var n int
+			if _, err := fmt.Sscanf(r.URL.Path, "/big/%d", &n); err != nil {
+				return
+			}
+			buf := make([]byte, 8192)
+			for off := 0; off < n; {
+				k := len(buf)
+				if k > n-off {
+					k = n - off
+				}
+				for i := 0; i < k; i++ {
+					buf[i] = patternAt(off + i)
+				}
+				if _, err := w.Write(buf[:k]); err != nil {
+					return
+				}
+				off += k
+			}
+		}})
 	if err != nil {
 		fmt.Println("CHILD-ERROR", err)
 		os.Exit(3)
@@ -50,9 +71,11 @@ func child() {
 
 const readTimeout = 400 * time.Millisecond
 
+func patternAt(i int) byte { return byte(i ^ i>>8 ^ i>>16 ^ 0x5a) }
+
 // stall scripts: a client that stops at a particular point and stays; the server's timers (handshake, read, idle) fire on
 // their own goroutines, where no per-connection recover reaches
-var stallScripts = []string{"h2-window0-get", "h2-half-post", "h2-preface-only", "h2-settings-only", "h1-partial-line", "h1-partial-body", "h1-unread-response", "tls-partial-hello", "h2-rst-then-idle"}
+var stallScripts = []string{"h2-reset-blocked-write", "h2-reset-blocked-write", "h2-reset-blocked-write", "h2-reset-blocked-write", "h2-reset-blocked-write", "h2-reset-blocked-write", "h2-reset-blocked-write", "h2-reset-blocked-write", "h2-window0-get", "h2-half-post", "h2-preface-only", "h2-settings-only", "h1-partial-line", "h1-partial-body", "h1-unread-response", "tls-partial-hello", "h2-rst-then-idle"}
 
 func stall(addr, script string) (net.Conn, error) {
 	if script == "tls-partial-hello" {
@@ -62,6 +85,30 @@ func stall(addr, script string) (net.Conn, error) {
 		}
 		raw.Write([]byte{0x16, 0x03, 0x01, 0x02, 0x00, 0x01, 0x00, 0x01, 0xfc, 0x03, 0x03})
 		return raw, nil
+	}
+	if script == "h2-reset-blocked-write" {
+		// a large response to a client that grants all the window there is but does not read: the server ends up blocked in the middle
+		// of writing a DATA frame; the client resets the stream while that write is stuck, then reads on as if nothing had happened
+		raw, err := net.DialTimeout("tcp", addr, 2*time.Second)
+		if err != nil {
+			return nil, err
+		}
+		raw.(*net.TCPConn).SetReadBuffer(4096)
+		tc := tls.Client(raw, &tls.Config{InsecureSkipVerify: true, ServerName: "vf.test", NextProtos: []string{"h2"}})
+		raw.SetDeadline(time.Now().Add(30 * time.Second))
+		if err := tc.Handshake(); err != nil {
+			raw.Close()
+			return nil, err
+		}
+		tc.Write([]byte(h2raw.Preface))
+		tc.Write(h2raw.Settings(h2raw.Setting{ID: 4, Val: 1 << 30}))
+		tc.Write(h2raw.WindowUpdate(0, 1<<30))
+		tc.Write(h2raw.Headers(1, true, h2raw.Block([]h2raw.HF{{":method", "GET"}, {":scheme", "https"}, {":authority", "vf.test"}, {":path", "/big/50331648"}}), nil, 0))
+		time.Sleep(300 * time.Millisecond)
+		tc.Write(h2raw.RST(1, 8))
+		time.Sleep(20 * time.Millisecond)
+		go io.Copy(io.Discard, tc) // ... and reads on
+		return tc, nil
 	}
 	alpn := "h2"
 	if strings.HasPrefix(script, "h1") {
@@ -174,19 +221,44 @@ func runStalls(ch *Child, only string) error {
 			c.Close()
 		}
 	}()
+	// bystanders: ordinary clients downloading all the while (what one client does must not show in what the others receive - and some
+	// damage is only visible to those who are served at that very moment)
+	stop := make(chan struct{})
+	byErr := make(chan error, 1)
+	go func() {
+		var first error
+		for {
+			select {
+			case <-stop:
+				byErr <- first
+				return
+			default:
+			}
+			if err := integrity(ch.addr); err != nil && first == nil {
+				first = fmt.Errorf("bystander during the stall scripts: %v", err)
+			}
+		}
+	}()
 	for _, sc := range stallScripts {
 		if only != "" && sc != only {
 			continue
 		}
 		c, err := stall(ch.addr, sc)
 		if err != nil {
+			close(stop)
+			<-byErr
 			return fmt.Errorf("stall script %s could not start: %v", sc, err)
 		}
 		held = append(held, c)
 	}
 	time.Sleep(5 * readTimeout)
+	close(stop)
+	berr := <-byErr
 	if !ch.alive() {
 		return fmt.Errorf("process exited: %s", ch.exit)
+	}
+	if berr != nil {
+		return berr
 	}
 	return control(ch.addr)
 }
@@ -286,7 +358,78 @@ func control(addr string) error {
 	if hc.Resp[1] == nil || hc.Resp[1].Status != "200" {
 		return fmt.Errorf("h2 control: no 200")
 	}
-	return nil
+	return integrity(addr)
+}
+
+// integrity: ordinary clients download a body whose every octet is a function of its offset, several at a time on both protocols;
+// what another client did before must not show in what they receive
+func integrity(addr string) error {
+	const n = 300000
+	errs := make(chan error, 16)
+	for i := 0; i < 12; i++ {
+		go func(i int) {
+			var body []byte
+			if i%3 == 0 {
+				tc, err := dial(addr, "http/1.1")
+				if err != nil {
+					errs <- fmt.Errorf("h1 download: %v", err)
+					return
+				}
+				defer tc.Close()
+				tc.SetDeadline(time.Now().Add(20 * time.Second))
+				fmt.Fprintf(tc, "GET /big/%d HTTP/1.1\r\nHost: vf.test\r\n\r\n", n)
+				resp, err := http.ReadResponse(bufio.NewReader(tc), nil)
+				if err != nil {
+					errs <- fmt.Errorf("h1 download: %v", err)
+					return
+				}
+				body, err = io.ReadAll(resp.Body)
+				if err != nil {
+					errs <- fmt.Errorf("h1 download: %v after %d octets", err, len(body))
+					return
+				}
+			} else {
+				tc, err := dial(addr, "h2")
+				if err != nil {
+					errs <- fmt.Errorf("h2 download: %v", err)
+					return
+				}
+				defer tc.Close()
+				tc.SetDeadline(time.Now().Add(20 * time.Second))
+				tc.Write([]byte(h2raw.Preface))
+				tc.Write(h2raw.Settings())
+				hc := h2raw.NewConn(tc)
+				tc.Write(h2raw.Headers(1, true, h2raw.Block([]h2raw.HF{{":method", "GET"}, {":scheme", "https"}, {":authority", "vf.test"}, {":path", fmt.Sprintf("/big/%d", n)}}), nil, 0))
+				if err := hc.WaitStreams(1); err != nil {
+					errs <- fmt.Errorf("h2 download: %v", err)
+					return
+				}
+				if hc.Resp[1] == nil || hc.Resp[1].Reset {
+					errs <- fmt.Errorf("h2 download: stream reset")
+					return
+				}
+				body = hc.Resp[1].Body
+			}
+			if len(body) != n {
+				errs <- fmt.Errorf("download %d: %d octets instead of %d", i, len(body), n)
+				return
+			}
+			for k, b := range body {
+				if b != patternAt(k) {
+					errs <- fmt.Errorf("download %d: octet %d of the body is %#x, the backend sent %#x (the body an ordinary client receives is corrupted)", i, k, b, patternAt(k))
+					return
+				}
+			}
+			errs <- nil
+		}(i)
+	}
+	var first error
+	for i := 0; i < 12; i++ {
+		if err := <-errs; err != nil && first == nil {
+			first = err
+		}
+	}
+	return first
 }
 
 // throw sends one vector on its own connection and waits until the server has digested it (PING answered, connection closed, or 400ms)
@@ -322,6 +465,15 @@ func throw(addr string, v *Vector) string {
 func main() {
 	if len(os.Args) > 1 && os.Args[1] == "child" {
 		child()
+		return
+	}
+	if len(os.Args) > 1 && os.Args[1] == "probe" { // by hand: the blocked-write reset a few times, then the integrity downloads
+		ch, err := startChild()
+		if err != nil {
+			panic(err)
+		}
+		defer ch.stop()
+		fmt.Println("runStalls:", runStalls(ch, "h2-reset-blocked-write"))
 		return
 	}
 	vecPath, reportPath := os.Args[2], os.Args[3]
@@ -403,7 +555,12 @@ func main() {
 			why := err.Error()
 			ch.stop()
 			found := false
+			tried := map[string]bool{}
 			for _, sc := range stallScripts {
+				if tried[sc] {
+					continue
+				}
+				tried[sc] = true
 				c2, e2 := startChild()
 				if e2 != nil {
 					break
